@@ -16,9 +16,10 @@
 (* where.                                                                  *)
 (*                                                                         *)
 (* Where the property is silent the machine is nondeterministic:           *)
-(*  - a second response for a request that already has one may be handed   *)
-(*    to it again (a request may have a stream of responses) or dropped    *)
-(*    (an implementation may regard the request as complete);              *)
+(*  - a request that has been handed at least one response may be regarded *)
+(*    as complete at any time (its response stream ends, action Complete); *)
+(*    until then it is pending and every response with its ID reaches it   *)
+(*    (a request may have a stream of responses, e.g. AXFR);               *)
 (*  - a request sent while Cap requests are in flight may be refused;      *)
 (*  - any set of pending requests may expire at any time.                  *)
 (***************************************************************************)
@@ -30,7 +31,7 @@ CONSTANTS Reqs,     \* request names (the user's point of view), e.g. 1..3
           MaxTag    \* bound on the number of arrivals
 
 VARIABLES
-    phase,    \* phase[r]: "new" | "pending" | "cancelled" | "failed" | "refused"
+    phase,    \* phase[r]: "new" | "pending" | "done" | "cancelled" | "failed" | "refused"
     wire,     \* wire[r]: the ID request r carried on the wire (0 before it is sent)
     inbox,    \* inbox[r]: tags of the responses handed to r's receiver, in order
     conn,     \* "open" | "closed"
@@ -46,7 +47,7 @@ InUse   == {wire[r] : r \in Pending}
 Quiet   == [kind |-> "none", to |-> 0]
 
 TypeOK ==
-    /\ phase \in [Reqs -> {"new", "pending", "cancelled", "failed", "refused"}]
+    /\ phase \in [Reqs -> {"new", "pending", "done", "cancelled", "failed", "refused"}]
     /\ wire \in [Reqs -> Ids \cup {0}]
     /\ \A r \in Reqs : \A k \in 1..Len(inbox[r]) : inbox[r][k] \in 1..ntag
     /\ conn \in {"open", "closed"}
@@ -91,14 +92,16 @@ DeliverDup(r) ==
     /\ inbox' = [inbox EXCEPT ![r] = Append(@, ntag + 1)]
     /\ UNCHANGED <<phase, wire, conn>>
 
-\* ... or dropped
-DropDup(r) ==
+\* the implementation regards r, which has been answered, as complete: its response stream ends
+\* (a one-shot implementation does this together with the first response)
+Complete(r) ==
     /\ r \in Pending /\ inbox[r] # <<>>
-    /\ Arrive(wire[r], "dup", 0)
-    /\ UNCHANGED <<phase, wire, inbox, conn>>
+    /\ phase' = [phase EXCEPT ![r] = "done"]
+    /\ last' = Quiet
+    /\ UNCHANGED <<wire, inbox, conn, ntag, rid>>
 
-\* a response whose ID belongs to no in-flight request (never used, or of a request that was
-\* cancelled / has failed): dropped
+\* a response whose ID belongs to no in-flight request (never used, or of a request that is
+\* complete, was cancelled or has failed): dropped
 DeliverUnknown(i) ==
     /\ i \in Ids \ InUse
     /\ Arrive(i, "unknown", 0)
@@ -108,6 +111,15 @@ DeliverUnknown(i) ==
 DeliverGarbage ==
     /\ Arrive(0, "garbage", 0)
     /\ UNCHANGED <<phase, wire, inbox, conn>>
+
+\* ... or the implementation gives the connection up (the property speaks of unknown IDs only;
+\* treating an undecodable message as a fatal protocol error is not forbidden), which then is a
+\* close like any other
+GarbageCloses ==
+    /\ Arrive(0, "garbage", 0)
+    /\ conn' = "closed"
+    /\ phase' = [r \in Reqs |-> IF r \in Pending THEN "failed" ELSE phase[r]]
+    /\ UNCHANGED <<wire, inbox>>
 
 \* the user drops r's receiver
 Cancel(r) ==
@@ -136,9 +148,10 @@ Next ==
     \/ \E r \in Reqs : SendRefused(r)
     \/ \E r \in Reqs : DeliverFirst(r)
     \/ \E r \in Reqs : DeliverDup(r)
-    \/ \E r \in Reqs : DropDup(r)
+    \/ \E r \in Reqs : Complete(r)
     \/ \E i \in Ids : DeliverUnknown(i)
     \/ DeliverGarbage
+    \/ GarbageCloses
     \/ \E r \in Reqs : Cancel(r)
     \/ \E S \in SUBSET Reqs : Expire(S)
     \/ Close
@@ -154,10 +167,10 @@ C16_DistinctIds == \A r, q \in Pending : r # q => wire[r] # wire[q]
 \* "each response reaches the pending request with the same ID ..."
 \* whatever receiver r was handed carried r's ID
 C16_RoutedById == \A r \in Reqs : \A k \in 1..Len(inbox[r]) : rid[inbox[r][k]] = wire[r]
-\* ... and the first response for a pending request does reach it
-C16_FirstReaches ==
-    [][\A r \in Reqs : (/\ r \in Pending /\ inbox[r] = <<>> /\ ntag' = ntag + 1
-                        /\ rid'[ntag'] = wire[r]) => inbox'[r] = <<ntag'>>]_vars
+\* ... and every response that arrives with the ID of a pending request does reach it
+C16_Reaches ==
+    [][\A r \in Reqs : (/\ r \in Pending /\ ntag' = ntag + 1
+                        /\ rid'[ntag'] = wire[r]) => inbox'[r] = Append(inbox[r], ntag')]_vars
 
 \* "... and no other": a response is handed to at most one receiver, at most once
 C16_NoOther ==
@@ -165,9 +178,9 @@ C16_NoOther ==
                                         k <= Len(inbox[r]) /\ inbox[r][k] = t}) <= 1
 
 \* "unknown IDs are dropped": an arrival whose ID no in-flight request has (or that cannot be
-\* decoded) changes nothing any user can see
+\* decoded) changes nothing any user can see -- unless the connection is closed over it
 C16_UnknownDropped ==
-    [][(ntag' = ntag + 1 /\ rid'[ntag'] \notin InUse) => (inbox' = inbox /\ phase' = phase)]_vars
+    [][(ntag' = ntag + 1 /\ rid'[ntag'] \notin InUse /\ conn' = "open") => (inbox' = inbox /\ phase' = phase)]_vars
 
 \* "a closed connection fails every pending request"
 C16_CloseFailsAll == conn = "closed" => Pending = {}
@@ -177,5 +190,5 @@ C16_CloseFailsAllStep ==
 \* nothing is handed to a receiver that is not pending, and no request comes back to life
 C16_OnlyPendingReceive ==
     [][\A r \in Reqs : /\ inbox'[r] # inbox[r] => r \in Pending
-                       /\ phase[r] \in {"cancelled", "failed", "refused"} => phase'[r] = phase[r]]_vars
+                       /\ phase[r] \in {"done", "cancelled", "failed", "refused"} => phase'[r] = phase[r]]_vars
 =============================================================================
